@@ -198,6 +198,43 @@ PROPS = {
         assumptions=["strconv.ParseInt/ParseUint on opaque text = uninterpreted function of (text, base, bitSize) with contract ok => value fits bitSize"],
         explanation="Numeric conversion path with strconv as an uninterpreted function (solver ranges over all 64-bit results).",
     ),
+    "C09": dict(
+        level="model_checking",
+        level_text="decided through a sufficient condition, not by enumerating schedules: (1) frame condition: after Build / lexer.New / package init every object reachable from the Parser, the lexer Definition and the package-level EBNF parser is frozen in the executor; on every feasible path of Parse*/Lex/String and LexString+Next over symbolic inputs a store into a frozen cell, a write to a frozen map or an append into a frozen slice's spare capacity ends the path as a violation, so concurrent calls work on disjoint mutable memory; (2) history independence: the same call repeated on the same object returns the same result, and for back-reference definitions lexing after an arbitrary earlier input equals lexing with a fresh definition (transparency of the one shared mutable structure, the sync.Map cache)",
+        level_note="trusted: sync.Map is linearizable and *regexp.Regexp / reflect caches are safe for concurrent use (stdlib contracts); the executor's heap model (cells = Go variables; maps and slices tracked as described); real interleavings and the race detector are outside this technique; bounds as C01/C03",
+        runs=[dict(pkg=".", files=["root/zz_verif_ref.go", "root/zz_verif_parse.go", "root/zz_verif_grammars.go", "root/zz_verif_entry.go", "root/zz_verif_conc.go"], harness="^VH_C09_", reach={"VH_C09_Parse_Alt": ["accepted", "rejected"], "VH_C09_Parse_Union": ["accepted"]}),
+              dict(pkg="lexer", files=["lexer/zz_verif_stateful.go", "lexer/zz_verif_lexdefs.go", "lexer/zz_verif_conc.go"], harness="^VH_C09_",
+                   reach={"VH_C09_Frame_PushPop": ["lexed", "error"], "VH_C09_History_Backref": ["compared"], "VH_C09_History_Collide": ["compared"]}),
+              dict(pkg="ebnf", files=["ebnf/zz_verif_ebnf.go"], harness="^VH_C09_", reach={"VH_C09_EBNFParser": ["parsed", "failed"]})],
+        bounds=dict(quick="parser: 6 grammars x streams <= 5 tokens (3 Parse calls + String + Lex per path on one frozen parser); lexer: 5 definitions x inputs <= 3 bytes lexed twice on one frozen definition; cache: 2 back-reference definitions, first input <= 3 (2) bytes, second <= 3 (4) bytes over a 3-letter alphabet incl. NUL; ebnf: 4 texts on the frozen package-level parser",
+                    thorough="streams <= 7 tokens; inputs <= 4 bytes"),
+        outside="real schedules, the Go memory model below the level of variables, races inside user mappers / Parseable code, generated lexers (their definition value is an empty struct; per-call state only)",
+        assumptions=["no data race is possible between calls that write only memory they allocated themselves or were handed by the caller (Go memory model)"],
+        explanation="Frame condition via a store trap on frozen objects + direct history-independence assertions.",
+    ),
+    "C15": dict(
+        level="model_checking",
+        level_text="relational bounded model checking by symbolic execution: Trace on/off (same AST and error), ParseFromLexer leaves the caller's lexer at the first unconsumed token (compared with the reference semantics' end position), Parse(reader) / ParseString / ParseBytes / ParseFromLexer over the parser's own lexer return the same AST and the same error for every symbolic input, Parser.Lex returns the tokens the parse consumes (also with an Upper mapper, which only implements Lex), and a definition's Lex and LexString yield identical streams",
+        level_note="trusted: io.Copy / strings.Reader / bytes.Reader models (the writer receives exactly the reader's bytes, no error), fmt model for trace output, reference matcher for regexp on symbolic input; default text/scanner lexer content is outside (routing only)",
+        runs=[dict(pkg=".", files=["root/zz_verif_ref.go", "root/zz_verif_parse.go", "root/zz_verif_grammars.go", "root/zz_verif_entry.go", "root/zz_verif_conc.go"], harness="^VH_C15_",
+                   reach={"VH_C15_Routing": ["parsed", "failed"], "VH_C15_RoutingMapped": ["parsed", "failed"], "VH_C15_Trace_Alt": ["traced"], "VH_C15_Cursor_Seq": ["accept"], "VH_C15_LexEntryPoints": ["lexed"]})],
+        bounds=dict(quick="Trace/cursor: 6 grammar x configuration pairs, streams <= 5 tokens; routing: stateful lexer (Ident/Num/elided ws) + grammar, inputs <= 3 arbitrary bytes, filename in {\"\", \"f\"}, with and without Upper(\"Ident\")",
+                    thorough="streams <= 7 tokens; inputs <= 4 bytes"),
+        outside="the default text/scanner lexer's tokenisation; generated lexers' Lex/LexString/LexBytes (they share one code path: LexBytes and Lex call LexString)",
+        assumptions=["io.Copy(w, r) delivers exactly the reader's bytes"],
+        explanation="All entry points compared pairwise on symbolic inputs.",
+    ),
+    "C14": dict(
+        level="model_checking",
+        level_text="partial claim, bounded exploration through the symbolic executor: (a) every EBNF syntax tree of a bounded template (Negation symbolic, any modifier, name/literal/token/group, any lookahead marker, sequences and alternatives) is printed by the real String methods and parsed back by the real ebnf parser; the trees must be equal (so no operator is lost or altered); (b) for grammars using every operator, a union and anonymous struct types, the real Parser.String() must not panic, must be accepted by the ebnf package, put the root production first, define every referenced production exactly once, contain every operator of the grammar, and survive a second round trip",
+        level_note="trusted: text/scanner executed from SSA on the (concrete) printed text; the template's shape selectors are finite (enumeration through the executor; the solver decides the symbolic Negation flag); whole-grammar half is a fixed catalogue of 3 grammars",
+        runs=[dict(pkg="ebnf", files=["ebnf/zz_verif_ebnf.go"], harness="^VH_C14_", reach={"VH_C14_TreeRoundTrip": ["round-trip"], "VH_C14_Grammar_All": ["grammar"], "VH_C14_Grammar_Anonymous": ["grammar"]})],
+        bounds=dict(quick="trees: first term a leaf or a group (any lookahead marker) around a term, second element (sequence or alternative) a simple leaf; 12 090 trees; grammars: all-operators grammar, union grammar with literals needing escapes, anonymous struct grammar",
+                    thorough="group nesting depth 2"),
+        outside="grammars outside the three catalogue grammars; literal texts needing escapes beyond quote and backslash; cmd/railroad",
+        assumptions=[],
+        explanation="Round trip of symbolic EBNF trees and Parser.String() of catalogue grammars through the real ebnf parser.",
+    ),
 }
 
 
